@@ -8,3 +8,5 @@ run C17 'TestSeedC17' './aggsender/types/' './aggsender/types/... ./aggsender/fl
 run C18 'TestSeedC18' './aggsender/' './aggsender/'
 run C19 'TestSeedC19' './bridgesync/' './bridgesync/... ./agglayer/types/...'
 run C20 'TestSeedC20' './bridgesync/' './bridgesync/...'
+run C01 'TestSeedC01' './bridgesync/' './tree/... ./bridgesync/...'
+run C11 'TestSeedC11' './l1infotreesync/' './l1infotreesync/...'
